@@ -61,7 +61,7 @@ def run(ctx):
     prog = [{"op": "scenario", "a": {"threads": th, "schedules": per, "seed": ctx.seed + i}} for i, th in enumerate(SCENARIOS)]
     # reader (4 points) against updater (9 points): C(13,4) = 715 interleavings - enumerated to completion in both tiers;
     # the others are enumerated depth first up to a cap (evidence says whether the enumeration completed)
-    caps = [800, 150, 150, 150, 150, 150] if ctx.tier == "quick" else [800, 30000, 8000, 30000, 8000, 8000]
+    caps = [800, 150, 150, 150, 150, 150] if ctx.tier == "quick" else [800, 12000, 4000, 12000, 4000, 4000]
     prog += [{"op": "scenario", "a": {"threads": th, "schedules": cap, "exhaustive": True}} for th, cap in zip(DFS_SCENARIOS, caps)]
     events = run_harness("amap", prog, os.path.join(WORK, "amap.ev.ndjson"), timeout=3000, ctx=ctx, one_event_per_line=False)
     nsched = sum(1 for e in events if e["op"] == "init")
